@@ -701,7 +701,7 @@ func c01StageComposites(w *World, r *Report, pa *pipelineAnchors, forC01 bool) {
 					}
 					return true
 				}
-				if invokeOf(c.Common(), pa.scIface, "IsFallbackOnErrorAllowed") && c.Common().Value == k.Common().Value {
+				if invokeOf(c.Common(), pa.scIface, "IsFallbackOnErrorAllowed") && bindParam(c.Common().Value) == k.Common().Value {
 					return true
 				}
 				return false
